@@ -48,7 +48,8 @@ Scripts == [ pa |-> [out |-> "a", ok |-> TRUE],            \* printf a
              ab |-> [out |-> "a\nb\n", ok |-> TRUE],       \* printf 'a\nb\n'
              cr |-> [out |-> "a\r\nb\r\n", ok |-> TRUE],   \* CRLF output
              x3 |-> [out |-> "zz\n", ok |-> FALSE],        \* prints, then exit 3
-             nl |-> [out |-> "\n", ok |-> TRUE] ]
+             nl |-> [out |-> "\n", ok |-> TRUE],
+             mx |-> [out |-> "a\r\nb\nc", ok |-> TRUE] ] \* output that mixes the two endings
 RECURSIVE CatAll(_, _)
 CatAll(names, fs) ==   \* cat: concatenation; any missing operand fails the command
   IF names = <<>> THEN [out |-> "", ok |-> TRUE]
